@@ -280,8 +280,9 @@ fn computed_length_above_limit(h: &mut HitObject) -> bool {
     s.path.expected_dist().is_none() && s.path.curve().dist() > 131072.0
 }
 
-/// F15 is only accepted as the explanation when the same file with the map's `Mode` announced
-/// before the first section header round-trips cleanly.
+/// F15 is only accepted as the explanation when the same file with the map's (final) `Mode` announced
+/// before the first section header — and every other `Mode` record dropped, so that the mode is the same for
+/// every line — round-trips cleanly.
 fn mode_first_variant_passes(bytes: &[u8], m1: &Beatmap) -> bool {
     let Ok(text) = std::str::from_utf8(bytes) else { return false };
     let mut out = String::new();
@@ -290,6 +291,9 @@ fn mode_first_variant_passes(bytes: &[u8], m1: &Beatmap) -> bool {
         if !done && Section::try_from_line(line.trim_end()).is_some() {
             out.push_str(&format!("[General]\nMode: {}\n", mode_idx(m1.mode)));
             done = true;
+        }
+        if line.split(':').next().map_or(false, |k| k.trim() == "Mode") && line.contains(':') {
+            continue;
         }
         out.push_str(line);
     }
